@@ -233,6 +233,28 @@ fn rto_factor() {
     assert!(c.ssthresh.to_bits() == (old.cwnd * 0.7).max(2.).to_bits());
 }
 
+//@ harness id=cubic.k.slow_start_increment.int.attempt kind=attempt props=C15,C05 tier=thorough timeout=1200 bound="cwnd an integer in [2, 65535] segments, len <= 65535 bytes" text="in slow start one ACK of len bytes grows the window by at most len/mss segments (the bytes it acknowledged) and never shrinks it, up to the peer-window clamp"
+#[kani::proof]
+#[kani::unwind(3)]
+#[kani::stub(w_cubic, stub_w_cubic)]
+#[kani::stub(w_est, stub_w_est)]
+#[kani::stub(crate::rtte::RttEstimator::roundtrip_time, stub_rtt)]
+fn slow_start_increment_int() {
+    let mut c = any_cubic(true);
+    let n: u16 = kani::any();
+    kani::assume(n >= 2);
+    c.cwnd = n as f64;
+    kani::assume(c.cwnd < c.ssthresh && c.cwnd < c.rwnd);
+    let old = c;
+    let len: u16 = kani::any();
+    kani::assume(len >= 1);
+    c.on_ack(old.last_congestion_event, len as usize, &RttEstimator::default());
+    let grown = old.cwnd + len as f64 / old.mss as f64;
+    assert!(c.cwnd <= grown);
+    assert!(c.cwnd >= old.cwnd);
+    assert!(c.cwnd == grown.min(old.rwnd).max(2.));
+}
+
 //@ harness id=cubic.k.ssthresh_factor.attempt kind=attempt props=C15 tier=thorough timeout=900 text="after a timeout or entry into recovery ssthresh' == max(0.7 * cwnd, 2) exactly (equality of two floating-point products: at CBMC's limit)"
 #[kani::proof]
 #[kani::stub(calc_k, stub_calc_k)]
